@@ -238,7 +238,11 @@ func match(e *tyx.ENode, got any, path string, out *[]string, choices map[string
 			default:
 				if !present {
 					if x := e.Elems[i]; (x.Kind == "array" && len(x.Elems) == 0) || (x.Kind == "object" && allDroppable(x)) {
-						bad("[missing-empty-container] member %q is missing", k)
+						if e.IsMap {
+							bad("[missing-empty-container][in-typed-map] member %q is missing", k)
+						} else {
+							bad("[missing-empty-container] member %q is missing", k)
+						}
 					} else {
 						bad("member %q is missing", k)
 					}
@@ -397,6 +401,9 @@ func Run(cs Case, c *vrt.Ctx) {
 			t := tags
 			if i := strings.Index(m, "[missing-empty-container]"); i >= 0 {
 				t = append(append([]string{}, tags...), "missing-empty-container")
+				if strings.Contains(m, "[in-typed-map]") {
+					t = append(t, "in-typed-map")
+				}
 			}
 			c.Fail("wrong-encoding", e.name, fmt.Sprintf("%s; type %s value %+v opt=%+v; got %s", m, rv.Type(), v, cs.Opt, clip(canon.String(got, canon.Value))), t...)
 		}
@@ -693,13 +700,18 @@ var classifiers = []vrt.Classifier{
 	// untagged field when UseTags is set (the tag plans are shared between KeyExact on and off).
 	{ID: "C15-K1", Match: func(d vrt.Disc, c *vrt.Ctx) bool { return d.Kind == "keyexact-ignored-with-usetags" }},
 	// C15-K2: with OmitNil (and not OmitEmpty) pretty.JSON also omits empty and nil slices and
-	// maps and objects left without members; oj, sen and alt.Decompose write them.
+	// maps and objects left without members; oj, sen and alt.Decompose write them - except that
+	// oj and sen also drop empty (non-nil) containers that are members of a typed map
+	// ((wr.OmitNil || wr.OmitEmpty) && rm.Len() == 0 in tightMap / appendMap).
 	{ID: "C15-K2", Match: func(d vrt.Disc, c *vrt.Ctx) bool {
 		if !has(d, "opt:omitnil") || has(d, "opt:omitempty") {
 			return false
 		}
-		if d.Kind == "wrong-encoding" && d.Where == "pretty.JSON" && has(d, "missing-empty-container") {
-			return true
+		if d.Kind == "wrong-encoding" && has(d, "missing-empty-container") {
+			// pretty.JSON: everywhere; oj and sen: for the members of typed maps only
+			if d.Where == "pretty.JSON" || (has(d, "in-typed-map") && (strings.HasPrefix(d.Where, "oj.") || d.Where == "sen.String")) {
+				return true
+			}
 		}
 		return d.Kind == "encoders-disagree" && strings.Contains(d.Where, "pretty.JSON") &&
 			only(d, "zone:", "nil-container-under-omitnil") && !has(d, "wrote:pretty.JSON")
